@@ -275,27 +275,9 @@ func (v *Value) GetMember(member Value) (*Cell, error) {
 		}
 
 		if index >= len(arr) {
-			// TODO sparse arrays
-			// don't fill up to enormous numbers, just bail
-			if index > 1024*1024 {
-				return nil, fmt.Errorf("index too large to auto-fill array")
-			}
-
-			verifCharge(index - len(arr) + 1)
-			// fill the array with empty cells up to the index
-			var lastCell *Cell
-			for i := len(arr); i <= index; i++ {
-				lastCell = NewCell(NewValue(nil))
-				arr = append(arr, lastCell)
-			}
-			v.Array = arr
-
-			// make the last cell a spec object
-			lastCell.Value.ParentObj = v
-			fIndex := float64(index)
-			lastCell.Value.Num = &fIndex
-
-			return lastCell, nil
+			// past the end: reading yields nil and must not change the array,
+			// SetMember fills the array when something is stored here
+			return nil, nil
 		}
 		return arr[index], nil
 	case ValueObj:
@@ -338,6 +320,22 @@ func (v *Value) SetMember(member Value, cell *Cell) (*Cell, error) {
 		item, err := v.GetMember(member)
 		if err != nil {
 			return nil, err
+		}
+		if item == nil {
+			index := int(*member.Num)
+
+			// TODO sparse arrays
+			// don't fill up to enormous numbers, just bail
+			if index > 1024*1024 {
+				return nil, fmt.Errorf("index too large to auto-fill array")
+			}
+
+			verifCharge(index - len(v.Array) + 1)
+			// fill the array with empty cells up to the index
+			for i := len(v.Array); i <= index; i++ {
+				item = NewCell(NewValue(nil))
+				v.Array = append(v.Array, item)
+			}
 		}
 		item.Value = cell.Value
 		return item, nil
